@@ -31,7 +31,7 @@ META = dict(
 
 DT = [torch.float32, torch.float16, torch.bfloat16]
 HIST_OPS = sorted(programs.SHAPE_OPS | programs.MOVE_OPS | {"mul_scalar", "div_scalar", "neg", "relu", "softmax", "where",
-                                                              "torch.mul_scalar"})
+                                                              "torch.mul_scalar", "inplace_qdest", "inplace_fdest"})
 
 
 def direct_check(ctx, t, site, **expect):
